@@ -4,7 +4,7 @@
 From Coq Require Import List ZArith QArith Bool Permutation Lia Lqa Setoid Morphisms Sorting.Sorted.
 From VK Require Import Base Core STV Pairwise Rules.
 From VK.Spec Require Import Content ScoreSpec EditSpec Anon.
-From VK.Proofs Require Import Lib_sets Lib_rk Lib_content Lib_condense C11_condense C04_scoring C12_edit C08_anon.
+From VK.Proofs Require Import Lib_sets Lib_rk Lib_content Lib_condense C11_condense C04_scoring C12_edit Elect C08_anon.
 Import ListNotations.
 Open Scope Q_scope.
 
@@ -606,23 +606,34 @@ Notation mres_equiv := (mres_equiv cand).
 Notation tiebreak_equiv := (tiebreak_equiv cand).
 Notation stv_step_equiv := (stv_step_equiv cand ceqb).
 
-Lemma mbind_equiv : forall {A B} (R : A -> A -> Prop) (R2 : B -> B -> Prop)
+(* both results leave the monad state [s] untouched (no draw was consumed) *)
+Definition mres_at {A : Type} (s : mstate) (R : A -> A -> Prop) (x y : res (A * mstate)) : Prop :=
+  res_equiv (fun a b => R (fst a) (fst b) /\ snd a = s /\ snd b = s) x y.
+
+Lemma mres_at_equiv : forall {A} (s : mstate) (R : A -> A -> Prop) x y, mres_at s R x y -> mres_equiv R x y.
+Proof.
+  intros A s R x y H. unfold mres_at in H. unfold Anon.mres_equiv.
+  destruct x as [a|e]; destruct y as [b|e']; cbn in H |- *; try contradiction; [|exact H].
+  destruct H as [HR [H1 H2]]. split; [exact HR|congruence].
+Qed.
+
+Lemma mbind_at : forall {A B} (R : A -> A -> Prop) (R2 : B -> B -> Prop)
     (x y : M cand A) (f g : A -> M cand B) (s : mstate),
-  mres_equiv R (x s) (y s) ->
-  (forall a b s1, R a b -> mres_equiv R2 (f a s1) (g b s1)) ->
-  mres_equiv R2 (mbind x f s) (mbind y g s).
+  mres_at s R (x s) (y s) ->
+  (forall a b, R a b -> mres_at s R2 (f a s) (g b s)) ->
+  mres_at s R2 (mbind x f s) (mbind y g s).
 Proof.
   intros A B R R2 x y f g s H Hf. unfold mbind.
   destruct (x s) as [[a s1]|e]; destruct (y s) as [[b s2]|e']; cbn in H; try contradiction.
-  - destruct H as [HR Hs]. cbn [fst snd] in HR, Hs. subst s2. apply Hf. exact HR.
+  - destruct H as [HR [Hs1 Hs2]]. cbn [fst snd] in HR, Hs1, Hs2. subst s1 s2. apply Hf. exact HR.
   - exact H.
 Qed.
 
-Lemma mlift_equiv : forall {A} (R : A -> A -> Prop) (x y : res A) (s : mstate),
-  res_equiv R x y -> mres_equiv R (mlift x s) (mlift y s).
+Lemma mlift_at : forall {A} (R : A -> A -> Prop) (x y : res A) (s : mstate),
+  res_equiv R x y -> mres_at s R (mlift x s) (mlift y s).
 Proof.
   intros A R x y s H. unfold mlift. destruct x as [a|e]; destruct y as [b|e']; cbn in H |- *; try contradiction.
-  - split; [exact H|reflexivity].
+  - split; [exact H|split; reflexivity].
   - exact H.
 Qed.
 
@@ -747,7 +758,7 @@ Proof. split; constructor. Qed.
 Lemma finish_anonymous : forall (np np' : profile) r (el el' elim elim' : ranking) tbs tbs' (s : mstate),
   profile_equiv np np' -> stv_domain np -> stv_domain np' ->
   groups_equiv el el' -> groups_equiv elim elim' -> Forall2 tiebreak_equiv tbs tbs' ->
-  mres_equiv stv_step_equiv
+  mres_at s stv_step_equiv
     (mbind (mlift (first_place_votes cand ceqb np))
            (fun d => mret (np, state_of_scores cand r el elim tbs d)) s)
     (mbind (mlift (first_place_votes cand ceqb np'))
@@ -762,12 +773,475 @@ Proof.
   pose proof (score_rankings_keys cand ceqb np' _ d' E') as Hk'.
   assert (Hn : NoDup (map fst d)) by (rewrite Hk; apply Hd).
   assert (Hn' : NoDup (map fst d')) by (rewrite Hk'; apply Hd').
-  cbn. split; [|reflexivity]. unfold Anon.stv_step_equiv. cbn [fst snd].
+  cbn. split; [|split; reflexivity]. unfold Anon.stv_step_equiv. cbn [fst snd].
   split; [exact He|]. split.
   - unfold Anon.state_equiv, STV.state_of_scores. cbn [rnd remaining elected eliminated tiebreaks escores].
     split; [reflexivity|]. split; [apply (ranking_of_scores cand); assumption|].
     split; [exact Hel|]. split; [exact Helim|]. split; [exact Htbs|exact H].
   - split; [exact Hd|]. split; [exact Hd'|]. split; split; cbn; try assumption; reflexivity.
+Qed.
+
+(* ------------------------------------------------------------------ *)
+(** * The election rounds *)
+
+Section Step.
+Variable cfg : stv_cfg.
+Variable t : Q.
+Variables p p' : profile.
+Variables prev prev' : estate.
+Hypothesis Htb : s_tiebreak cfg = None.
+Hypothesis Htr : s_transfer cfg <> TRandom.
+Hypothesis Hd : stv_domain p.
+Hypothesis Hd' : stv_domain p'.
+Hypothesis He : profile_equiv p p'.
+Hypothesis Hst : stv_state_ok p prev.
+Hypothesis Hst' : stv_state_ok p' prev'.
+Hypothesis Hse : state_equiv prev prev'.
+
+Let Hl := state_lookup p p' prev prev' (proj1 Hd) (proj1 Hd') Hst Hst' Hse.
+Let Hrem : groups_equiv (remaining prev) (remaining prev') := proj1 (proj2 Hse).
+
+Definition np_equiv (np np' : profile) : Prop :=
+  profile_equiv np np' /\ stv_domain np /\ stv_domain np'.
+
+Lemma rebuild_anonymous : forall W W' moved moved' others others',
+  seteq W W' -> dist_eq moved moved' -> all_ok (cands p) moved -> all_ok (cands p') moved' ->
+  Permutation others others' ->
+  np_equiv (next_profile W (pool moved p others) (cands p))
+           (next_profile W' (pool moved' p' others') (cands p')).
+Proof.
+  intros W W' moved moved' others others' HW Hm Hok Hok' Hp.
+  pose proof (pool_ok moved p others (proj2 Hd) Hok) as Hpo.
+  pose proof (pool_ok moved' p' others' (proj2 Hd') Hok') as Hpo'.
+  split; [|split].
+  - apply next_profile_anonymous; [apply (all_ok_nonneg _ _ Hpo)|apply (all_ok_nonneg _ _ Hpo')|exact HW| |apply He].
+    apply pool_anonymous; [exact Hm|apply He|exact Hp].
+  - apply next_profile_domain; [apply Hd|exact Hpo].
+  - apply next_profile_domain; [apply Hd'|exact Hpo'].
+Qed.
+
+Lemma simultaneous_anonymous : forall s : mstate,
+  mres_at s (fun x y => groups_equiv (fst x) (fst y) /\ np_equiv (snd x) (snd y))
+    (simultaneous_elect cand ceqb cfg t p prev s) (simultaneous_elect cand ceqb cfg t p' prev' s).
+Proof.
+  intros s. unfold STV.simultaneous_elect, mbind, mlift.
+  pose proof (quota_groups_anonymous (remaining prev) (remaining prev') (escores prev) (escores prev') t
+                Hrem (state_uniform p prev (proj1 Hd) Hst) Hl) as Hq.
+  destruct (quota_groups cand ceqb (remaining prev) (escores prev) t) as [el|e] eqn:Eq;
+  destruct (quota_groups cand ceqb (remaining prev') (escores prev') t) as [el'|e'] eqn:Eq';
+    cbn [res_equiv] in Hq; try contradiction; [|subst e'; exact eq_refl].
+  cbn [ok]. rewrite (bbfc_ok p Hd), (bbfc_ok p' Hd'). cbn [ok].
+  assert (Hw : incl (flat el) (cands p)).
+  { intros c Hc. apply (Permutation_in _ (state_flat p prev Hst)). apply (quota_groups_incl _ _ _ _ Eq). exact Hc. }
+  assert (Hw' : incl (flat el') (cands p')).
+  { intros c Hc. apply (Permutation_in _ (state_flat p' prev' Hst')). apply (quota_groups_incl _ _ _ _ Eq'). exact Hc. }
+  rewrite (transfer_all_det _ _ p _ t s Htr (all_ok_ranked _ _ (proj2 Hd)) Hw).
+  rewrite (transfer_all_det _ _ p' _ t s Htr (all_ok_ranked _ _ (proj2 Hd')) Hw').
+  pose proof (groups_equiv_flat cand el el' Hq) as Hwp.
+  destruct (transfers_anonymous (s_transfer cfg) (flat el) (flat el') p p' (escores prev) (escores prev') t
+              Hwp (domain_nonneg p Hd) (domain_nonneg p' Hd') (proj1 He) Hl) as [Hz Hm].
+  rewrite <- Hz. destruct (existsb _ (flat el)); [exact eq_refl|].
+  assert (Ho : incl (set_diff (flat (remaining prev)) (flat el)) (cands p)).
+  { intros c Hc. apply (Lib_sets.set_diff_In cand ceqb ceqb_spec) in Hc.
+    apply (Permutation_in _ (state_flat p prev Hst)). apply Hc. }
+  assert (Ho' : incl (set_diff (flat (remaining prev')) (flat el')) (cands p')).
+  { intros c Hc. apply (Lib_sets.set_diff_In cand ceqb ceqb_spec) in Hc.
+    apply (Permutation_in _ (state_flat p' prev' Hst')). apply Hc. }
+  rewrite (subsetb_true _ _ Ho), (subsetb_true _ _ Ho'). cbn [negb].
+  fold (transfers (s_transfer cfg) (flat el) p (escores prev) t).
+  fold (transfers (s_transfer cfg) (flat el') p' (escores prev') t).
+  fold (pool (transfers (s_transfer cfg) (flat el) p (escores prev) t) p (set_diff (flat (remaining prev)) (flat el))).
+  fold (pool (transfers (s_transfer cfg) (flat el') p' (escores prev') t) p' (set_diff (flat (remaining prev')) (flat el'))).
+  rewrite (mk_next_ok _ _ _ (proj1 Hd)), (mk_next_ok _ _ _ (proj1 Hd')).
+  cbn. split; [|split; reflexivity]. split; [exact Hq|].
+  apply rebuild_anonymous.
+  - apply perm_seteq. exact Hwp.
+  - exact Hm.
+  - unfold transfers. apply concat_ok. intros c. apply tr_out_ok, pile_ok, Hd.
+  - unfold transfers. apply concat_ok. intros c. apply tr_out_ok, pile_ok, Hd'.
+  - rewrite <- (set_diff_seteq cand ceqb ceqb_spec _ _ _ (perm_seteq _ _ Hwp)).
+    unfold Core.set_diff. apply Permutation_filter_local. apply (groups_equiv_flat cand). exact Hrem.
+Qed.
+
+Lemma flat_len1 : forall (w : cand) g0 (el1 : ranking),
+  Z.of_nat (length (flat ((w :: g0) :: el1))) = 1%Z -> g0 = [] /\ flat el1 = [].
+Proof.
+  intros w g0 el1 H. rewrite (flat_cons cand) in H. cbn [length app] in H. rewrite app_length in H.
+  destruct g0 as [|x g0]; [|cbn [length] in H; lia]. split; [reflexivity|].
+  destruct (flat el1); [reflexivity|cbn [length] in H; lia].
+Qed.
+
+Lemma single_anonymous : forall s : mstate,
+  mres_at s (fun x y => groups_equiv (fst (fst x)) (fst (fst y)) /\
+                         Forall2 tiebreak_equiv (snd (fst x)) (snd (fst y)) /\ np_equiv (snd x) (snd y))
+    (single_elect cand ceqb cfg t p prev s) (single_elect cand ceqb cfg t p' prev' s).
+Proof.
+  intros s. unfold STV.single_elect, mbind, mlift. rewrite Htb.
+  pose proof (elect_top_m_anonymous cand ceqb (remaining prev) (remaining prev') 1 (Some p) (Some p') s Hrem) as H1.
+  destruct (elect_top_m cand ceqb (remaining prev) 1 (Some p) None s) as [[[[el rem] tb] s1]|e] eqn:E1;
+  destruct (elect_top_m cand ceqb (remaining prev') 1 (Some p') None s) as [[[[el' rem'] tb'] s1']|e'] eqn:E1';
+    cbn in H1; try contradiction; [|subst e'; exact eq_refl].
+  destruct H1 as [[Hel [Hrm [Ht Ht']]] Hs1]. cbn [fst snd] in Hel, Hrm, Ht, Ht', Hs1. subst tb tb' s1'.
+  destruct (Elect.elect_top_m_shape cand ceqb _ _ _ _ _ _ _ _ _ E1) as [_ [[_ [Hs [Hr Hn]]]|Hbad]];
+    [|destruct Hbad as [? [? [? [? [? [? [Hx _]]]]]]]; discriminate].
+  destruct (Elect.elect_top_m_shape cand ceqb _ _ _ _ _ _ _ _ _ E1') as [_ [[_ [_ [Hr' Hn']]]|Hbad]];
+    [|destruct Hbad as [? [? [? [? [? [? [Hx _]]]]]]]; discriminate].
+  subst s1. rewrite (bbfc_ok p Hd), (bbfc_ok p' Hd'). cbn [ok].
+  destruct Hel as [|g g' el1 el1' Hg Hel1]; [exact eq_refl|].
+  destruct g as [|w g0]; [apply Permutation_nil in Hg; subst g'; exact eq_refl|].
+  destruct (flat_len1 w g0 el1 Hn) as [-> Hf1]. apply Permutation_length_1_inv in Hg. subst g'.
+  destruct (flat_len1 w [] el1' Hn') as [_ Hf1'].
+  assert (Hfr : incl (flat (remaining prev)) (cands p)).
+  { intros c Hc. apply (Permutation_in _ (state_flat p prev Hst)). exact Hc. }
+  assert (Hfr' : incl (flat (remaining prev')) (cands p')).
+  { intros c Hc. apply (Permutation_in _ (state_flat p' prev' Hst')). exact Hc. }
+  assert (Hwin : In w (cands p)).
+  { apply Hfr. rewrite <- Hr. rewrite (flat_app cand), (flat_cons cand). left. reflexivity. }
+  assert (Hwin' : In w (cands p')).
+  { apply Hfr'. rewrite <- Hr'. rewrite (flat_app cand), (flat_cons cand). left. reflexivity. }
+  rewrite (proj2 (Lib_sets.memb_In cand ceqb ceqb_spec w (cands p)) Hwin).
+  rewrite (proj2 (Lib_sets.memb_In cand ceqb ceqb_spec w (cands p')) Hwin'). cbn [negb].
+  assert (Hrp : forall q : profile, stv_domain q -> ranked (pile q w)).
+  { intros q Hq. apply (all_ok_ranked (cands q)). apply pile_ok. apply Hq. }
+  rewrite (do_transfer_det _ w _ _ t s Htr (Hrp p Hd)), (do_transfer_det _ w _ _ t s Htr (Hrp p' Hd')).
+  rewrite <- (tr_zero_comp (s_transfer cfg) _ _ (Hl w)).
+  destruct (tr_zero (s_transfer cfg) (lookup0 cand ceqb w (escores prev))); [exact eq_refl|].
+  assert (Ho : incl (flat rem) (cands p)).
+  { intros c Hc. apply Hfr. rewrite <- Hr, (flat_app cand). apply in_or_app. right. exact Hc. }
+  assert (Ho' : incl (flat rem') (cands p')).
+  { intros c Hc. apply Hfr'. rewrite <- Hr', (flat_app cand). apply in_or_app. right. exact Hc. }
+  rewrite (subsetb_true _ _ Ho), (subsetb_true _ _ Ho'). cbn [negb].
+  assert (Hfe : flat ([w] :: el1) = [w]) by (rewrite (flat_cons cand), Hf1; reflexivity).
+  assert (Hfe' : flat ([w] :: el1') = [w]) by (rewrite (flat_cons cand), Hf1'; reflexivity).
+  rewrite Hfe, Hfe'.
+  fold (pool (tr_out (s_transfer cfg) w (lookup0 cand ceqb w (escores prev)) t (pile p w)) p (flat rem)).
+  fold (pool (tr_out (s_transfer cfg) w (lookup0 cand ceqb w (escores prev')) t (pile p' w)) p' (flat rem')).
+  rewrite (mk_next_ok _ _ _ (proj1 Hd)), (mk_next_ok _ _ _ (proj1 Hd')).
+  cbn. split; [|split; reflexivity]. split; [constructor; [apply Permutation_refl|exact Hel1]|].
+  split; [constructor|].
+  apply rebuild_anonymous.
+  - intros c; reflexivity.
+  - apply tr_out_anonymous; [apply (nonneg_filter cand), (domain_nonneg p Hd)
+                            |apply (nonneg_filter cand), (domain_nonneg p' Hd')|apply Hl
+                            |apply pile_anonymous, He].
+  - apply tr_out_ok, pile_ok, Hd.
+  - apply tr_out_ok, pile_ok, Hd'.
+  - apply (groups_equiv_flat cand). exact Hrm.
+Qed.
+
+End Step.
+
+(* ------------------------------------------------------------------ *)
+(** * The elimination round *)
+
+Lemma random_break_empty : forall (r : ranking) (s : mstate), scr s = [] ->
+  existsb (fun g : list cand => Nat.ltb 1 (length g)) r = true -> random_break cand ceqb r s = inr EScript.
+Proof.
+  induction r as [|g r IH]; intros s Hs H; [discriminate|].
+  cbn [existsb] in H. cbn [Core.random_break].
+  destruct g as [|a [|b g]].
+  - cbn in H. unfold mbind. rewrite (IH s Hs H). reflexivity.
+  - cbn in H. unfold mbind. rewrite (IH s Hs H). reflexivity.
+  - unfold mbind, Core.draw_perm, mbind, Core.next_draw. rewrite Hs. reflexivity.
+Qed.
+
+Lemma keys_filter : forall (g : cand -> bool) (d : scores),
+  map fst (filter (fun q => g (fst q)) d) = filter g (map fst d).
+Proof.
+  intros g d. induction d as [|q d IH]; [reflexivity|]. cbn [filter map].
+  destruct (g (fst q)); cbn [map]; rewrite IH; reflexivity.
+Qed.
+
+Lemma scores_equiv_filter : forall (g g' : cand -> bool) (d d' : scores),
+  (forall c, g c = g' c) -> scores_equiv d d' ->
+  scores_equiv (filter (fun q => g (fst q)) d) (filter (fun q => g' (fst q)) d').
+Proof.
+  intros g g' d d' Hg [Hk Hv]. split.
+  - rewrite !keys_filter. rewrite (filter_ext g g' Hg). apply Permutation_filter_local. exact Hk.
+  - intros c q q' Hq Hq'. apply filter_In in Hq. apply filter_In in Hq'. apply (Hv c q q'); [apply Hq|apply Hq'].
+Qed.
+
+Lemma existsb_big_equiv : forall r r', groups_equiv r r' ->
+  existsb (fun g : list cand => Nat.ltb 1 (length g)) r = existsb (fun g : list cand => Nat.ltb 1 (length g)) r'.
+Proof.
+  intros r r' H. induction H as [|g g' r r' Hg _ IH]; [reflexivity|]. cbn [existsb].
+  rewrite (Permutation_length Hg), IH. reflexivity.
+Qed.
+
+Definition small_groups (t : ranking) : Prop := Forall (fun g : cset => (length g <= 1)%nat) t.
+
+Lemma tiebreak_fpv_anonymous : forall lowest lowest' p0 p0' (s : mstate),
+  scr s = [] -> stv_domain p0 -> stv_domain p0' -> profile_equiv p0 p0' -> Permutation lowest lowest' ->
+  mres_at s (fun t t' => groups_equiv t t' /\ small_groups t /\ small_groups t')
+    (tiebreak_set cand ceqb lowest (Some p0) TBFirstPlace s)
+    (tiebreak_set cand ceqb lowest' (Some p0') TBFirstPlace s).
+Proof.
+  intros lowest lowest' p0 p0' s Hs Hd Hd' He Hp. cbn [Core.tiebreak_set]. unfold mbind, mlift.
+  pose proof (first_place_votes_anonymous cand ceqb ceqb_spec p0 p0' (domain_wf p0 Hd) (domain_wf p0' Hd') He) as H.
+  destruct (first_place_votes cand ceqb p0) as [d|e] eqn:E; destruct (first_place_votes cand ceqb p0') as [d'|e'] eqn:E';
+    cbn [res_equiv] in H; try contradiction; [|subst e'; exact eq_refl].
+  cbn [ok]. cbv zeta.
+  assert (Hn : NoDup (map fst d)) by (rewrite (score_rankings_keys cand ceqb p0 _ d E); apply Hd).
+  assert (Hn' : NoDup (map fst d')) by (rewrite (score_rankings_keys cand ceqb p0' _ d' E'); apply Hd').
+  set (d1 := filter (fun q : cand * Q => memb (fst q) lowest) d).
+  set (d1' := filter (fun q : cand * Q => memb (fst q) lowest') d').
+  assert (H1 : scores_equiv d1 d1').
+  { apply (scores_equiv_filter (fun c => memb c lowest) (fun c => memb c lowest')); [|exact H].
+    intros c. apply (memb_seteq cand ceqb ceqb_spec). apply perm_seteq. exact Hp. }
+  pose proof (ranking_of_scores cand d1 d1' true (NoDup_keys_filter cand d _ Hn) (NoDup_keys_filter cand d' _ Hn') H1) as Hr.
+  rewrite <- (existsb_big_equiv _ _ Hr).
+  destruct (existsb (fun g : list cand => Nat.ltb 1 (length g)) (score_to_ranking cand d1 true)) eqn:Eb.
+  - rewrite (random_break_empty _ s Hs Eb).
+    rewrite (existsb_big_equiv _ _ Hr) in Eb. rewrite (random_break_empty _ s Hs Eb). exact eq_refl.
+  - cbn. split; [|split; reflexivity]. split; [exact Hr|].
+    assert (Hsm : forall r : ranking, existsb (fun g : list cand => Nat.ltb 1 (length g)) r = false -> small_groups r).
+    { intros r Hf. unfold small_groups. apply Forall_forall. intros g Hg.
+      destruct (Nat.ltb 1 (length g)) eqn:El.
+      - exfalso. assert (T : existsb (fun g : list cand => Nat.ltb 1 (length g)) r = true).
+        { apply existsb_exists. exists g. split; assumption. }
+        congruence.
+      - apply Nat.ltb_ge in El. exact El. }
+    split; [apply Hsm; exact Eb|apply Hsm; rewrite <- (existsb_big_equiv _ _ Hr); exact Eb].
+Qed.
+
+(* whom to eliminate, as coded in stv_step *)
+Definition elim_pick (lowest : cset) (p0 : profile) : M cand (cand * list (cset * ranking)) :=
+  match lowest with
+  | [] => mfail EIndex
+  | [c] => mret (c, [])
+  | _ =>
+      do! tb := tiebreak_set cand ceqb lowest (Some p0) TBFirstPlace in
+      match rev tb with
+      | (c :: _) :: _ => mret (c, [(lowest, tb)])
+      | _ => mfail EIndex
+      end
+  end.
+
+Lemma elim_pick_anonymous : forall lowest lowest' p0 p0' (s : mstate),
+  scr s = [] -> stv_domain p0 -> stv_domain p0' -> profile_equiv p0 p0' -> Permutation lowest lowest' ->
+  mres_at s (fun x y => fst x = fst y /\ Forall2 tiebreak_equiv (snd x) (snd y))
+    (elim_pick lowest p0 s) (elim_pick lowest' p0' s).
+Proof.
+  intros lowest lowest' p0 p0' s Hs Hd Hd' He Hp. unfold elim_pick.
+  destruct lowest as [|c [|c2 l]].
+  - apply Permutation_nil in Hp. subst lowest'. exact eq_refl.
+  - apply Permutation_length_1_inv in Hp. subst lowest'. cbn. split; [|split; reflexivity]. split; [reflexivity|constructor].
+  - destruct lowest' as [|c' [|c2' l']];
+      try (apply Permutation_length in Hp; cbn [length] in Hp; lia).
+    apply (mbind_at (fun t t' => groups_equiv t t' /\ small_groups t /\ small_groups t')).
+    + apply tiebreak_fpv_anonymous; assumption.
+    + intros tb tb' [Ht [Hsm Hsm']].
+      assert (Hsr : small_groups (rev tb)).
+      { unfold small_groups in *. rewrite Forall_forall in Hsm |- *. intros g Hg. apply Hsm. apply in_rev. exact Hg. }
+      remember (rev tb) as rtb eqn:Ertb. remember (rev tb') as rtb' eqn:Ertb'.
+      assert (Hrv : Forall2 (@Permutation cand) rtb rtb') by (subst rtb rtb'; apply Forall2_rev; exact Ht).
+      clear Ertb Ertb'.
+      destruct Hrv as [|g g' rt rt' Hg _]; [exact eq_refl|].
+      destruct g as [|x g0]; [apply Permutation_nil in Hg; subst g'; exact eq_refl|].
+      unfold small_groups in Hsr. inversion Hsr as [|y z Hl _]; subst.
+      destruct g0 as [|x2 g0]; [|cbn [length] in Hl; lia].
+      apply Permutation_length_1_inv in Hg. subst g'.
+      cbn. split; [|split; reflexivity]. split; [reflexivity|].
+      constructor; [|constructor]. split; cbn [fst snd]; [exact Hp|exact Ht].
+Qed.
+
+(* ------------------------------------------------------------------ *)
+(** * One whole step *)
+
+Definition mid_equiv (x y : ranking * ranking * list (cset * ranking) * profile) : Prop :=
+  groups_equiv (fst (fst (fst x))) (fst (fst (fst y))) /\
+  groups_equiv (snd (fst (fst x))) (snd (fst (fst y))) /\
+  Forall2 tiebreak_equiv (snd (fst x)) (snd (fst y)) /\
+  np_equiv (snd x) (snd y).
+
+Theorem stv_step_at : forall cfg t p0 p0' n p p' prev prev' (s : mstate),
+  s_tiebreak cfg = None -> s_transfer cfg <> TRandom -> scr s = [] ->
+  stv_domain p0 -> stv_domain p0' -> profile_equiv p0 p0' ->
+  stv_domain p -> stv_domain p' -> profile_equiv p p' ->
+  stv_state_ok p prev -> stv_state_ok p' prev' -> state_equiv prev prev' ->
+  mres_at s stv_step_equiv
+    (stv_step cand ceqb cfg t p0 n p prev s) (stv_step cand ceqb cfg t p0' n p' prev' s).
+Proof.
+  intros cfg t p0 p0' n p p' prev prev' s Htb Htr Hs Hd0 Hd0' He0 Hd Hd' He Hst Hst' Hse.
+  unfold STV.stv_step. cbv zeta.
+  apply (mbind_at mid_equiv).
+  - rewrite !match_nonempty. rewrite <- (above_agree (escores prev) (escores prev') t (proj2 (proj2 (proj2 (proj2 (proj2 Hse)))))).
+    destruct (nonempty (filter (fun q : cand * Q => Qle_bool t (snd q)) (escores prev))).
+    + destruct (s_simul cfg).
+      * apply (mbind_at (fun x y => groups_equiv (fst x) (fst y) /\ np_equiv (snd x) (snd y))).
+        -- apply simultaneous_anonymous; assumption.
+        -- intros [el np] [el' np'] [H1 H2]. cbn [fst snd] in H1, H2. cbn. split; [|split; reflexivity].
+           unfold mid_equiv. cbn [fst snd]. split; [exact H1|]. split; [apply no_group_equiv|]. split; [constructor|exact H2].
+      * apply (mbind_at (fun x y => groups_equiv (fst (fst x)) (fst (fst y)) /\
+                           Forall2 tiebreak_equiv (snd (fst x)) (snd (fst y)) /\ np_equiv (snd x) (snd y))).
+        -- apply single_anonymous; assumption.
+        -- intros [[el tbs] np] [[el' tbs'] np'] [H1 [H2 H3]]. cbn [fst snd] in H1, H2, H3. cbn. split; [|split; reflexivity].
+           unfold mid_equiv. cbn [fst snd]. split; [exact H1|]. split; [apply no_group_equiv|]. split; assumption.
+    + rewrite <- (Permutation_length (proj2 He)).
+      destruct (Z.of_nat (length (cands p)) =? s_m cfg - n)%Z.
+      * cbn. split; [|split; reflexivity]. unfold mid_equiv. cbn [fst snd].
+        split; [apply Hse|]. split; [apply no_group_equiv|]. split; [constructor|].
+        split; [split; [apply (dist_eq_refl cand ceqb)|apply Permutation_refl]|split; apply empty_domain].
+      * remember (rev (remaining prev)) as rr eqn:Err. remember (rev (remaining prev')) as rr' eqn:Err'.
+        assert (Hrv : Forall2 (@Permutation cand) rr rr') by (subst rr rr'; apply Forall2_rev; apply Hse).
+        clear Err Err'.
+        destruct Hrv as [|lowest lowest' rt rt' Hlow _]; [exact eq_refl|].
+        apply (mbind_at (fun x y => fst x = fst y /\ Forall2 tiebreak_equiv (snd x) (snd y))).
+        -- apply (elim_pick_anonymous lowest lowest' p0 p0' s); assumption.
+        -- intros [x tbs] [x' tbs'] [Hx Htbs]. cbn [fst snd] in Hx, Htbs. subst x'.
+           unfold mbind, mlift.
+           rewrite (remove_cand_prof_next [x] p (proj1 Hd)), (remove_cand_prof_next [x] p' (proj1 Hd')).
+           cbn. split; [|split; reflexivity]. unfold mid_equiv. cbn [fst snd].
+           split; [apply no_group_equiv|]. split; [constructor; [apply Permutation_refl|constructor]|].
+           split; [exact Htbs|]. split; [|split].
+           ++ apply next_profile_anonymous; [apply (domain_nonneg p Hd)|apply (domain_nonneg p' Hd')
+                                            |intros c; reflexivity|apply He|apply He].
+           ++ apply next_profile_domain; [apply Hd|apply Hd].
+           ++ apply next_profile_domain; [apply Hd'|apply Hd'].
+  - intros [[[el elim] tbs] np] [[[el' elim'] tbs'] np'] [H1 [H2 [H3 [H4 [H5 H6]]]]]. cbn [fst snd] in H1, H2, H3, H4, H5, H6.
+    rewrite (proj1 Hse). apply finish_anonymous; assumption.
+Qed.
+
+Theorem stv_step_anonymous : forall cfg t p0 p0' n p p' prev prev' (s : mstate),
+  s_tiebreak cfg = None -> s_transfer cfg <> TRandom -> scr s = [] ->
+  stv_domain p0 -> stv_domain p0' -> profile_equiv p0 p0' ->
+  stv_domain p -> stv_domain p' -> profile_equiv p p' ->
+  stv_state_ok p prev -> stv_state_ok p' prev' -> state_equiv prev prev' ->
+  mres_equiv stv_step_equiv
+    (stv_step cand ceqb cfg t p0 n p prev s) (stv_step cand ceqb cfg t p0' n p' prev' s).
+Proof. intros. apply (mres_at_equiv s). apply stv_step_at; assumption. Qed.
+
+(* ------------------------------------------------------------------ *)
+(** * The whole count *)
+
+Lemma Qtrunc_comp : forall q q', q == q' -> Qtrunc q = Qtrunc q'.
+Proof.
+  intros q q' H. unfold STV.Qtrunc. unfold Qeq in H.
+  rewrite <- (Z.quot_mul_cancel_r (Qnum q) (Zpos (Qden q)) (Zpos (Qden q'))) by discriminate.
+  rewrite H. rewrite (Z.mul_comm (Zpos (Qden q)) (Zpos (Qden q'))).
+  apply Z.quot_mul_cancel_r; discriminate.
+Qed.
+
+Lemma stv_validate_ok : forall p, stv_domain p -> stv_validate cand p = inl tt.
+Proof.
+  intros p [_ Hb]. unfold STV.stv_validate. induction Hb as [|b bs Hb _ IH]; [reflexivity|].
+  cbn [rfirst_err]. destruct Hb as [H1 [H2 _]].
+  destruct (rk b) as [|g r] eqn:E; [exfalso; apply H1; reflexivity|].
+  assert (Hf : existsb (fun s0 : list cand => Nat.ltb 1 (length s0)) (g :: r) = false).
+  { apply not_true_is_false. intros Hex. apply existsb_exists in Hex. destruct Hex as [x [Hx Hl]].
+    rewrite Forall_forall in H2. rewrite (H2 x Hx) in Hl. discriminate. }
+  rewrite Hf. cbn [rbind]. exact IH.
+Qed.
+
+Lemma stv_init_anonymous : forall cfg p p', stv_domain p -> stv_domain p' -> profile_equiv p p' ->
+  stv_init cand cfg p = stv_init cand cfg p'.
+Proof.
+  intros cfg p p' Hd Hd' [Hde Hp]. unfold STV.stv_init.
+  rewrite (stv_validate_ok p Hd), (stv_validate_ok p' Hd'). cbn [rbind].
+  rewrite <- (Permutation_length Hp).
+  destruct ((s_m cfg <=? 0)%Z || (Z.of_nat (length (cands p)) <? s_m cfg)%Z); [reflexivity|].
+  pose proof (total_wt_anonymous cand ceqb ceqb_spec _ _ Hde) as Ht.
+  unfold STV.threshold. destruct (s_quota cfg); [| |reflexivity].
+  - rewrite (Qtrunc_comp _ (total_wt cand (ballots p') / inject_Z (s_m cfg + 1) + 1)); [reflexivity|].
+    rewrite Ht. reflexivity.
+  - rewrite (Qtrunc_comp _ (total_wt cand (ballots p') / inject_Z (s_m cfg))); [reflexivity|].
+    rewrite Ht. reflexivity.
+Qed.
+
+Lemma initial_state_anonymous : forall p p', stv_domain p -> stv_domain p' -> profile_equiv p p' ->
+  res_equiv (fun st st' => state_equiv st st' /\ stv_state_ok p st /\ stv_state_ok p' st')
+    (initial_state cand ceqb p) (initial_state cand ceqb p').
+Proof.
+  intros p p' Hd Hd' He. unfold STV.initial_state.
+  pose proof (first_place_votes_anonymous cand ceqb ceqb_spec p p' (domain_wf p Hd) (domain_wf p' Hd') He) as H.
+  destruct (first_place_votes cand ceqb p) as [d|e] eqn:E; destruct (first_place_votes cand ceqb p') as [d'|e'] eqn:E';
+    cbn [res_equiv] in H; try contradiction; cbn [rbind ok res_equiv]; [|exact H].
+  pose proof (score_rankings_keys cand ceqb p _ d E) as Hk.
+  pose proof (score_rankings_keys cand ceqb p' _ d' E') as Hk'.
+  assert (Hn : NoDup (map fst d)) by (rewrite Hk; apply Hd).
+  assert (Hn' : NoDup (map fst d')) by (rewrite Hk'; apply Hd').
+  split; [|split; split; cbn; try assumption; reflexivity].
+  unfold Anon.state_equiv, STV.state_of_scores. cbn [rnd remaining elected eliminated tiebreaks escores].
+  split; [reflexivity|]. split; [apply (ranking_of_scores cand); assumption|].
+  split; [apply no_group_equiv|]. split; [apply no_group_equiv|]. split; [constructor|exact H].
+Qed.
+
+Lemma real_groups_flat_length : forall r : ranking, length (flat (real_groups cand r)) = length (flat r).
+Proof. intros [|[|c g] [|g2 r]]; reflexivity. Qed.
+
+Lemma count_elected_equiv : forall sts sts' : list estate, Forall2 state_equiv sts sts' ->
+  count_elected cand sts = count_elected cand sts'.
+Proof.
+  intros sts sts' H. unfold STV.count_elected. f_equal.
+  induction H as [|st st' sts sts' Hst _ IH]; [reflexivity|].
+  cbn [map concat]. rewrite !(flat_app cand), !app_length, IH, !real_groups_flat_length.
+  rewrite (Permutation_length (groups_equiv_flat cand _ _ (proj1 (proj2 (proj2 Hst))))). reflexivity.
+Qed.
+
+Lemma stv_loop_at : forall fuel cfg t p0 p0' (s : mstate),
+  s_tiebreak cfg = None -> s_transfer cfg <> TRandom -> scr s = [] ->
+  stv_domain p0 -> stv_domain p0' -> profile_equiv p0 p0' ->
+  forall p p' sts sts',
+  stv_domain p -> stv_domain p' -> profile_equiv p p' ->
+  Forall2 state_equiv sts sts' ->
+  (forall prev prev' l l', sts = prev :: l -> sts' = prev' :: l' ->
+     stv_state_ok p prev /\ stv_state_ok p' prev') ->
+  mres_at s (Forall2 state_equiv)
+    (stv_loop cand ceqb fuel cfg t p0 p sts s) (stv_loop cand ceqb fuel cfg t p0' p' sts' s).
+Proof.
+  intros fuel cfg t p0 p0' s Htb Htr Hs Hd0 Hd0' He0.
+  induction fuel as [|fuel IH]; intros p p' sts sts' Hd Hd' He Hsts Hhead.
+  - cbn [STV.stv_loop]. rewrite <- (count_elected_equiv sts sts' Hsts).
+    destruct (count_elected cand sts =? s_m cfg)%Z; [|exact eq_refl].
+    cbn. split; [apply Forall2_rev; exact Hsts|split; reflexivity].
+  - cbn [STV.stv_loop]. rewrite <- (count_elected_equiv sts sts' Hsts).
+    destruct (count_elected cand sts =? s_m cfg)%Z.
+    + cbn. split; [apply Forall2_rev; exact Hsts|split; reflexivity].
+    + destruct Hsts as [|prev prev' sts sts' Hprev Hsts]; [exact eq_refl|].
+      destruct (Hhead prev prev' sts sts' eq_refl eq_refl) as [Hok Hok'].
+      apply (mbind_at stv_step_equiv).
+      * apply stv_step_at; assumption.
+      * intros [np st] [np' st'] [H1 [H2 [H3 [H4 [H5 H6]]]]]. cbn [fst snd] in H1, H2, H3, H4, H5, H6.
+        apply IH; try assumption.
+        -- constructor; [exact H2|]. constructor; assumption.
+        -- intros a a' l l' Ea Ea'. inversion Ea; inversion Ea'; subst. split; assumption.
+Qed.
+
+Theorem run_stv_anonymous : forall cfg p p' (s : mstate),
+  s_tiebreak cfg = None -> s_transfer cfg <> TRandom -> scr s = [] ->
+  stv_domain p -> stv_domain p' -> profile_equiv p p' ->
+  mres_equiv (Forall2 state_equiv) (run_stv cand ceqb cfg p s) (run_stv cand ceqb cfg p' s).
+Proof.
+  intros cfg p p' s Htb Htr Hs Hd Hd' He. apply (mres_at_equiv s).
+  unfold STV.run_stv, mbind, mlift. rewrite (stv_init_anonymous cfg p p' Hd Hd' He).
+  destruct (stv_init cand cfg p') as [t|e]; [|exact eq_refl]. cbn [ok].
+  pose proof (initial_state_anonymous p p' Hd Hd' He) as H0.
+  destruct (initial_state cand ceqb p) as [s0|e]; destruct (initial_state cand ceqb p') as [s0'|e'];
+    cbn [res_equiv] in H0; try contradiction; [|subst e'; exact eq_refl].
+  cbn [ok]. rewrite <- (Permutation_length (proj2 He)).
+  destruct H0 as [H1 [H2 H3]].
+  apply stv_loop_at; try assumption.
+  - constructor; [exact H1|constructor].
+  - intros a a' l l' Ea Ea'. inversion Ea; inversion Ea'; subst. split; assumption.
+Qed.
+
+(* the rule entry point *)
+Theorem stv_rule_anonymous : forall cfg p p' (s : mstate),
+  s_tiebreak cfg = None -> s_transfer cfg <> TRandom -> scr s = [] ->
+  stv_domain p -> stv_domain p' -> profile_equiv p p' ->
+  mres_equiv (Forall2 state_equiv) (run_rule cand ceqb (RSTV cfg) p s) (run_rule cand ceqb (RSTV cfg) p' s).
+Proof. intros. cbn [Rules.run_rule]. apply run_stv_anonymous; assumption. Qed.
+
+Theorem frac_transfer_anonymous : forall (w : cand) (fpv fpv' t : Q) (bs bs' : list ballot),
+  ranked bs -> ranked bs' -> nonneg_wts bs -> nonneg_wts bs' -> fpv == fpv' -> dist_eq bs bs' ->
+  res_equiv dist_eq (frac_transfer w fpv bs t) (frac_transfer w fpv' bs' t).
+Proof.
+  intros w fpv fpv' t bs bs' Hr Hr' Hn Hn' Hf Hde.
+  pose proof (Qeq_bool_comp fpv fpv' 0 0 Hf (Qeq_refl 0)) as Hz.
+  destruct (Qeq_bool fpv 0) eqn:E.
+  - rewrite (frac_zero w fpv bs t E), (frac_zero w fpv' bs' t (eq_sym Hz)). reflexivity.
+  - rewrite (frac_ok w fpv bs t Hr E), (frac_ok w fpv' bs' t Hr' (eq_sym Hz)). cbn [res_equiv].
+    apply frac_out_anonymous; assumption.
 Qed.
 
 End StvAnon.
